@@ -1,6 +1,7 @@
 package verifsim
 
 import (
+	"runtime/debug"
 	"bufio"
 	"bytes"
 	"fmt"
@@ -121,6 +122,10 @@ func genDamage(r *rand.Rand, data []byte, frames []Frame) Damage {
 // ---- (a) codec round trip: input generation, not simulation (labelled so in the evidence)
 
 func genArg(r *rand.Rand) []byte {
+	if r.Intn(12) == 0 {
+		// larger than the 4096-byte read buffer of the parser: arguments that span buffer refills
+		return randBytes(r, 3000+r.Intn(9000))
+	}
 	switch r.Intn(8) {
 	case 0:
 		return nil
@@ -265,6 +270,9 @@ func peakRSSKB() int64 {
 }
 
 func runC03(w *World, tr *Trace) {
+	// a damaged length field may legitimately make recovery allocate up to the documented 1 GB frame cap;
+	// give that back before the next run of the batch so that runs do not starve each other of address space
+	defer debug.FreeOSMemory()
 	r := w.R
 	codecRoundTrips(w, 40)
 	if w.Failed() {
